@@ -328,6 +328,27 @@ def rule_partition(ctx, rep, rid="C09.partition"):
         rep.check(len(ps) >= 2 and not bad, rid, "helper.fallback-covers-rest", "the inline fallback processes [start, len) completely: (0, len) or (S, len - S) on each of %d ways into it" % len(ps),
                   "the inline fallback is called with (start, len) = %s: part of the level is neither handled by a worker thread nor inline "
                   "(buckets left unlinked / unpopulated)" % [(ir.expr_str(a), ir.expr_str(b)) for a, b in bad][:2], [i.where()])
+    # the partitions tile the level only when the thread count is a power of two (partition_len = len >> order(nr_threads), len a power of
+    # two): nr_threads comes from nr_cpus_mask + 1, so whoever writes nr_cpus_mask stores (a power of two) - 1 or a negative sentinel
+    m_ = ctx.mod("cds", "perfn")
+    if pat.loads(f, glob="nr_cpus_mask"):
+        nst = 0
+        for g in m_.defined():
+            for s_ in pat.stores(g, glob="nr_cpus_mask"):
+                nst += 1
+                v = ir.expr(g, s_.args[0], 8)
+                cv = ir.const_of(g, s_.args[0])
+                inst_ = "helper.thread-count-pow2@%s:%d" % (g.srcname, s_.line)
+                if cv is not None:
+                    rep.check(cv < 0 or (cv + 1) & cv == 0, rid, inst_, "nr_cpus_mask constant %d is a sentinel / a power of two minus one" % cv, "nr_cpus_mask is set to %d: nr_cpus_mask + 1 worker partitions do not tile a level" % cv, [s_.where()])
+                elif v[0] == "bin" and ((v[1] == "sub" and v[3] == ("c", 1)) or (v[1] == "add" and v[3] == ("c", -1))) and v[2][0] == "bin" and v[2][1] == "shl" and v[2][2] == ("c", 1):
+                    rep.ok(rid, inst_, "nr_cpus_mask = (1 << order) - 1")
+                elif v[0] == "bin" and ((v[1] == "sub" and v[3] == ("c", 1)) or (v[1] == "add" and v[3] == ("c", -1))) and ir.expr_contains(v[2], lambda z: z[0] == "call") and not ir.expr_contains(v[2], lambda z: z[0] == "bin" and z[1] == "shl"):
+                    rep.bad(rid, inst_, "nr_cpus_mask is the raw CPU count minus one (%s): on a machine whose CPU count is not a power of two partition_resize_helper's threads cover only "
+                            "nr_threads * (len >> order(nr_threads)) < len buckets of a level and the inline fallback is skipped - new buckets stay unpopulated (nodes no longer found), removed levels stay linked" % ir.expr_str(v), [s_.where()])
+                else:
+                    rep.unk(rid, inst_, "value stored to nr_cpus_mask not recognised: %s" % ir.expr_str(v))
+        pat.require(nst >= 1, "no writer of nr_cpus_mask found")
     # partitions: work[t] = (t * partition_len, partition_len)
     st = [s_ for s_ in pat.stores(f, "partition_resize_work.start")]
     ln = [s_ for s_ in pat.stores(f, "partition_resize_work.len")]
